@@ -1,5 +1,6 @@
 /- Model/C17Gen.lean — the C17 models instantiated with the facts the translator extracted. -/
 import PsutilModel.Model.C17
+import PsutilModel.Model.C17Ext
 import PsutilModel.Generated.C17
 namespace Psutil.C17
 
@@ -60,6 +61,35 @@ def icfg : ICfg :=
     pyNoValueClasses := Gen.C17.ioprioPyNoValueClasses }
 
 def ecfg : ECfg := { castUnsigned := Gen.C17.ethSpeedCast }
+
+def ncfg : NCfg :=
+  { famInet := Gen.C17.nifFamInet
+    famInet6 := Gen.C17.nifFamInet6
+    famPacket := Gen.C17.nifFamPacket
+    lenInet := Gen.C17.nifLenInet
+    lenInet6 := Gen.C17.nifLenInet6
+    hostlenIsBuf := Gen.C17.nifHostlenIsBuf
+    halenOff := Gen.C17.nifHalenOff
+    lladdrOff := Gen.C17.nifLladdrOff
+    ifuChain := Gen.C17.nifIfuChain
+    tupleOrder := Gen.C17.nifTupleOrder
+    netmaskSrc := Gen.C17.nifNetmaskSrc
+    familySrc := Gen.C17.nifFamilySrc }
+
+def qcfg : QCfg := { ifnamsiz := Gen.C17.ifnamsiz, runningBit := Gen.C17.ifRunningBit }
+
+def dcfg : DCfg :=
+  { reentrant := Gen.C17.mntReentrant
+    userBuf := Gen.C17.mntUserBuf
+    libcBuf := Gen.C17.mntLibcBuf
+    order := Gen.C17.mntOrder }
+
+def ycfg : YCfg :=
+  { format := Gen.C17.sysinfoFormat.toList
+    fields := Gen.C17.sysinfoFields
+    fieldBits := Gen.C17.sysinfoFieldBits }
+
+def gcfg : GCfg := { resetBefore := Gen.C17.getprioResetBefore, testMinusOne := Gen.C17.getprioTestMinusOne }
 
 /-- the C table restricted to the macros the platform header defines, with their bits -/
 def iffLinux : List (Nat × String) :=
